@@ -229,7 +229,13 @@ def seeded_values(seed, n):
     r = random.Random(seed)
     out = []
     while len(out) < n:
-        k = r.randrange(6)
+        k = r.randrange(7)
+        if k == 6:                        # shortest decimal of exactly 15 / 16 / 17 significant digits (just below a power of ten,
+            v = 10.0 ** r.randrange(-8, 12)           # and 16-digit mantissas above 2^53)
+            v = r.choice([v * (1 - 2.0 ** -53), v * (1 - 2.0 ** -52), v * 0.95 * (1 + r.randrange(1, 99) * 2.0 ** -52),
+                          v * r.uniform(0.9007199254740993, 0.9999999999999999), v * (1 + 2.0 ** -52)])
+            out.append(v if r.randrange(2) else -v)
+            continue
         if k == 0:
             v = r.uniform(-1000, 1000)
         elif k == 1:                      # a decimal tie at some digit, as close as float64 gets
